@@ -452,3 +452,95 @@ def _loop_header_of(fn, bb):
             if bb in body and (best is None or len(body) < len(loop_blocks(fn, best))):
                 best = h
     return best if best is not None else bb
+
+
+def _canon(t):
+    """canonical rendering of a small value term: checked arithmetic as plain arithmetic, field paths by their last names,
+    commutative operands and phi alternatives sorted."""
+    t = simp_deep(t) if isinstance(t, tuple) else t
+    if not isinstance(t, tuple) or not t:
+        return str(t)
+    k = t[0]
+    if k == "field":
+        if t[1] == "tuple.0":
+            inner = simp_deep(t[2])
+            if inner[0] == "bin" and inner[1].endswith("WithOverflow"):
+                return _canon(("bin", inner[1].replace("WithOverflow", ""), inner[2], inner[3]))
+        name = t[1].rsplit(".", 1)[-1].rsplit("::", 1)[-1]
+        return "%s.%s" % (_canon(t[2]), name)
+    if k == "variant":
+        # the two range kinds carry the same payload type: `GC(r) | Skip(r) => f(r)` and two separate arms render alike
+        return "%s as %s" % (_canon(t[2]), "Range" if t[1] in ("GC", "Skip") else t[1])
+    if k == "bin":
+        op = t[1].replace("WithOverflow", "")
+        a, b = _canon(t[2]), _canon(t[3])
+        sym = {"Add": "+", "Sub": "-", "Mul": "*", "Eq": "==", "Lt": "<", "Le": "<=", "Gt": ">", "Ge": ">=", "Ne": "!="}.get(op, op)
+        if op in ("Add", "Mul", "Eq", "Ne"):
+            a, b = sorted((a, b))
+        return "(%s %s %s)" % (a, sym, b)
+    if k == "call":
+        name = F.strip_generics(t[1])
+        name = re.sub(r"^<.* as (.*)>::", r"\\1::", name)
+        short = "::".join(name.split("::")[-2:])
+        return "%s(%s)" % (short, ", ".join(_canon(a) for a in t[2]))
+    if k == "phi":
+        return " | ".join(sorted({_canon(a) for a in t[1]}))
+    if k == "param":
+        return str(t[2])
+    if k == "const":
+        return str(t[1]).split("_")[0]
+    if k in ("ref", "deref", "cast"):
+        return _canon(t[-1])
+    if k == "agg":
+        return "%s{%s}" % (str(t[1]).rsplit("::", 1)[-1], ", ".join(_canon(a) for a in t[2]))
+    if k == "local":
+        return str(t[2]) if len(t) > 2 and t[2] else "_"
+    return str(k)
+
+
+# function -> ("ret", expected) | ("store", {field: expected}) ; expected = canonical rendering (see _canon)
+IDENTITIES = {
+    "yrs::slice::ItemSlice::clock_start": ("ret", "(self.ptr.id.clock + self.start)"),
+    "yrs::slice::ItemSlice::clock_end": ("ret", "(self.end + self.ptr.id.clock)"),
+    "yrs::slice::ItemSlice::len": ("ret", "((self.end - self.start) + 1)"),
+    "yrs::slice::ItemSlice::id": ("store", {"clock": "(self.ptr.id.clock + self.start)"}),
+    "yrs::slice::ItemSlice::last_id": ("store", {"clock": "(self.end + self.ptr.id.clock)"}),
+    "yrs::slice::BlockSlice::clock_end": ("ret", "((self as Range.0.clock + self as Range.0.len) - 1) | ItemSlice::clock_end(self as Item.0)"),
+    "yrs::slice::BlockSlice::clock_start": ("ret", "ItemSlice::clock_start(self as Item.0) | self as Range.0.clock"),
+    "yrs::slice::BlockSlice::len": ("ret", "ItemSlice::len(self as Item.0) | self as Range.0.len"),
+    "yrs::block::Item::last_id": ("ret", "ID::new(self.id.client, ((Item::len(self) + self.id.clock) - 1))"),
+    "yrs::block::BlockRange::clock_end": ("ret", "(self.clock + self.len)"),
+    "yrs::block::BlockRange::id": ("ret", "ID::new(self.client, self.clock)"),
+    "yrs::block::BlockRange::slice": ("store", {"clock": "(offset + self.clock)", "len": "(self.len - offset)"}),
+    "yrs::block::BlockRange::merge": ("store", {"len": "(other.len + self.len)"}),
+    "yrs::state_vector::StateVector::get": ("ret", "0 | HashMap::get(self.0, client_id)"),
+    "yrs::block_store::ClientBlockList::clock": ("ret", "0 | Block::next_clock(BlockRef::as_ref(ClientBlockList::last(self)))"),
+}
+
+
+def identity_table(R, ctx, rid):
+    Y = ctx.yrs
+    R.rule(rid, "R-TABLE value identities of the clock accessors every traversal, codec and search trusts (ItemSlice / BlockSlice / "
+                "BlockRange / Item / StateVector / ClientBlockList): the value each answers or stores, rebuilt from its MIR with "
+                "locals resolved and rendered canonically (checked arithmetic as plain arithmetic, commutative operands sorted), "
+                "equals the expression written down for it — clock_start = item clock + start, clock_end = item clock + end "
+                "(inclusive), len = end - start + 1, a range's inclusive end = clock + len - 1, its exclusive end = clock + len, "
+                "slice(offset) moves the clock forward and shortens the length by the same offset, … A refactoring that keeps the "
+                "value (named temporaries, reordered commutative operands) renders the same; a neighbour's formula does not")
+    n = 0
+    for path, (kind, want) in sorted(IDENTITIES.items()):
+        fn = Y.fn(path)
+        v = FnView(fn)
+        n += 1
+        if kind == "ret":
+            got = _canon(v.terms.local(0, 14))
+            R.ob(rid, fn, "value", got == want, "= %s" % got if got == want else "answers %s — expected %s" % (got, want))
+        else:
+            got = {}
+            for i, j, st in fn.stmts():
+                d = st["dst"]
+                if isinstance(d, dict) and d.get("p") and isinstance(d["p"][-1], str):
+                    got[d["p"][-1].rsplit(".", 1)[-1]] = _canon(v.terms.rvalue(st["rv"], 12))
+            ok = all(got.get(f) == e for f, e in want.items())
+            R.ob(rid, fn, "stores", ok, "stores %s" % {f: got.get(f) for f in want} if ok else "stores %s — expected %s" % ({f: got.get(f) for f in want}, want))
+    R.floor(rid, "accessors in the identity table", n, 12)
